@@ -112,3 +112,41 @@ Lemma g_TunnelPassword_5 x : holds (gd G_TunnelPassword 5) x = negb (x =? 128). 
 (* bound on the password: the statement requires the encoding plus a tag byte
    to fit one attribute, i.e. at most 239 bytes of password *)
 Lemma g_NewTunnelPassword_0 x : holds (gd G_NewTunnelPassword 0) x = (x >? 239). Proof. reflexivity. Qed.
+
+(* ---- attribute.go: typed codecs ---- *)
+Example shape_codecs :
+  (gexpr_is G_Integer 0 "len(a)" && gexpr_is G_Short 0 "len(a)" && gexpr_is G_Integer64 0 "len(a)" &&
+   gexpr_is G_NewString 0 "len(s)" && gexpr_is G_NewBytes 0 "len(b)" && gexpr_is G_IPAddr 0 "len(a)" &&
+   gexpr_is G_IPv6Addr 0 "len(a)" && gexpr_is G_IFID 0 "len(a)" && gexpr_is G_NewIFID 0 "len(addr)" &&
+   gexpr_is G_Date 0 "len(a)" && gexpr_is G_NewDate 0 "unix" && gexpr_is G_NewDate 1 "unix" &&
+   gexpr_is G_VendorSpecific 0 "len(a)" && gexpr_is G_NewVendorSpecific 0 "len(value)" &&
+   gexpr_is G_NewVendorSpecific 1 "len(value)" && gexpr_is G_TLV 0 "len(a)" && gexpr_is G_TLV 1 "len(a)" &&
+   gexpr_is G_NewTLV 0 "len(tlvValue)" && gexpr_is G_NewTLV 1 "len(tlvValue)" &&
+   gexpr_is G_NewIPv6Prefix 0 "len(prefix.IP)" && gexpr_is G_NewIPv6Prefix 1 "bits" && gexpr_is G_NewIPv6Prefix 2 "i" &&
+   gexpr_is G_IPv6Prefix 0 "len(a)" && gexpr_is G_IPv6Prefix 1 "len(a)" && gexpr_is G_IPv6Prefix 2 "prefixLength")%bool = true.
+Proof. guard_shape. Qed.
+Lemma g_Integer_0 x : holds (gd G_Integer 0) x = negb (x =? 4). Proof. reflexivity. Qed.
+Lemma g_Short_0 x : holds (gd G_Short 0) x = negb (x =? 2). Proof. reflexivity. Qed.
+Lemma g_Integer64_0 x : holds (gd G_Integer64 0) x = negb (x =? 8). Proof. reflexivity. Qed.
+Lemma g_NewString_0 x : holds (gd G_NewString 0) x = (x >? 253). Proof. reflexivity. Qed.
+Lemma g_NewBytes_0 x : holds (gd G_NewBytes 0) x = (x >? 253). Proof. reflexivity. Qed.
+Lemma g_IPAddr_0 x : holds (gd G_IPAddr 0) x = negb (x =? 4). Proof. reflexivity. Qed.
+Lemma g_IPv6Addr_0 x : holds (gd G_IPv6Addr 0) x = negb (x =? 16). Proof. reflexivity. Qed.
+Lemma g_IFID_0 x : holds (gd G_IFID 0) x = negb (x =? 8). Proof. reflexivity. Qed.
+Lemma g_NewIFID_0 x : holds (gd G_NewIFID 0) x = negb (x =? 8). Proof. reflexivity. Qed.
+Lemma g_Date_0 x : holds (gd G_Date 0) x = negb (x =? 4). Proof. reflexivity. Qed.
+Lemma g_NewDate_0 x : holds (gd G_NewDate 0) x = (x <? 0). Proof. reflexivity. Qed.
+Lemma g_NewDate_1 x : holds (gd G_NewDate 1) x = (x >? 4294967295). Proof. reflexivity. Qed.
+Lemma g_VendorSpecific_0 x : holds (gd G_VendorSpecific 0) x = (x <? 5). Proof. reflexivity. Qed.
+Lemma g_NewVendorSpecific_0 x : holds (gd G_NewVendorSpecific 0) x = (x <? 1). Proof. reflexivity. Qed.
+Lemma g_NewVendorSpecific_1 x : holds (gd G_NewVendorSpecific 1) x = (x >? 249). Proof. reflexivity. Qed.
+Lemma g_TLV_0 x : holds (gd G_TLV 0) x = (x <? 3). Proof. reflexivity. Qed.
+Lemma g_TLV_1 x : holds (gd G_TLV 1) x = (x >? 255). Proof. reflexivity. Qed.
+Lemma g_NewTLV_0 x : holds (gd G_NewTLV 0) x = (x <? 1). Proof. reflexivity. Qed.
+Lemma g_NewTLV_1 x : holds (gd G_NewTLV 1) x = (x >? 253). Proof. reflexivity. Qed.
+Lemma g_NewIPv6Prefix_0 x : holds (gd G_NewIPv6Prefix 0) x = negb (x =? 16). Proof. reflexivity. Qed.
+Lemma g_NewIPv6Prefix_1 x : holds (gd G_NewIPv6Prefix 1) x = negb (x =? 128). Proof. reflexivity. Qed.
+Lemma g_NewIPv6Prefix_2 x : holds (gd G_NewIPv6Prefix 2) x = negb (x =? 0). Proof. reflexivity. Qed.
+Lemma g_IPv6Prefix_0 x : holds (gd G_IPv6Prefix 0) x = (x <? 2). Proof. reflexivity. Qed.
+Lemma g_IPv6Prefix_1 x : holds (gd G_IPv6Prefix 1) x = (x >? 18). Proof. reflexivity. Qed.
+Lemma g_IPv6Prefix_2 x : holds (gd G_IPv6Prefix 2) x = (x >? 128). Proof. reflexivity. Qed.
